@@ -304,15 +304,17 @@ def findLevelOpt (count : Int → Option Int) (mx minL0 maxL0 : Int) : Option (O
   let (minL, maxL) := if minL0 == 0 && maxL0 == 0 then ((-1000 : Int), (1000 : Int)) else (minL0, maxL0)
   if minL > maxL || mx < 1 then some none else
   -- levels examined lie in [min(minL,..), 14]; check they are all determined
-  let lo := if minL < -1 then -1 else minL
-  let hi := if maxL > 14 then 14 else maxL
+  -- negative levels never fit (the count there is the largest int); levels 0..14 are tabulated
+  let lo : Int := if minL < 0 then 0 else minL
+  let hi : Int := if maxL > 14 then 14 else maxL
   let lvls := (List.range (hi - lo + 1).toNat).map fun (i : Nat) => lo + (i : Int)
   let tbl := lvls.map count
   if tbl.any (·.isNone) then none
   else
     let c (l : Int) : Int :=
+      if l < 0 then maxInt else
       let l' := if l > hi then hi else if l < lo then lo else l
-      (tbl.getD (l' - lo).toNat none).getD 0
+      (tbl.getD (l' - lo).toNat none).getD maxInt
     some (leastLevel c mx minL0 maxL0)
 
 def logTicksAt (mn mx : Rat) (base : Nat) (level : Int) (slackF : Rat) : Option (List Rat) :=
@@ -358,7 +360,10 @@ def handleLogTicks (ins outs : List J) : Verdict :=
       else
         let (neg, mn, mx) := ebounds mn0 mx0
         let rt := 1 / 100000000000
-        let inside (l : List Rat) := l.all fun t => mn0 * (1 - rt * (if mn0 > 0 then 1 else -1)) ≤ t && t ≤ mx0 * (1 + rt * (if mx0 > 0 then 1 else -1))
+        -- the library's own slack is 1e-10 of the span in log units, i.e. a relative distance ln(max/min)·1e-10:
+        -- "inside the domain" is read up to twice that, as for Linear scales
+        let rs := rt + 2 * slackFactor * ratMax 0 (I.logQ (mx / mn)).hi
+        let inside (l : List Rat) := l.all fun t => mn0 * (1 - rs * (if mn0 > 0 then 1 else -1)) ≤ t && t ≤ mx0 * (1 + rs * (if mx0 > 0 then 1 else -1))
         let holds := [("ticks-ascending", ascending gmaj && ascending gmin, "not ascending"),
                       ("ticks-inside-domain", inside gmaj && inside gmin, s!"major {toString (gmaj.map ratStr)} minor {toString (gmin.map ratStr)}"),
                       ("ticks-at-most-max", (gmaj.length : Int) ≤ maxT, s!"{gmaj.length} > {maxT}"),
@@ -415,7 +420,8 @@ def handleLogNice (ins outs : List J) : Verdict :=
         let relClose (a : V) (b : Rat) : Bool := match a with | .fin q => ratAbs (q - b) ≤ rt * ratAbs b | _ => false
         let lo := if mn0 < mx0 then mn0 else mx0
         let hi := if mn0 < mx0 then mx0 else mn0
-        let holds := [("nice-never-shrinks", n1 ≤ lo + rt * ratAbs lo && n2 ≥ hi - rt * ratAbs hi, s!"[{ratStr mn0},{ratStr mx0}] -> [{ratStr n1},{ratStr n2}]")]
+        let rs := rt + 2 * slackFactor * ratMax 0 (I.logQ (mx / mn)).hi      -- the library's slack in relative terms
+        let holds := [("nice-never-shrinks", n1 ≤ lo + rs * ratAbs lo && n2 ≥ hi - rs * ratAbs hi, s!"[{ratStr mn0},{ratStr mx0}] -> [{ratStr n1},{ratStr n2}]")]
         let ctx := mkLogCtx mn mx base
         let res (fct : Rat) := findLevelOpt (logCountC ctx true (slackFactor * fct)) maxT minL maxL
         let found : Bool := match res 1 with | some (some lv) => decide (lv.toNat < overflowLevel base) | _ => false
